@@ -1138,3 +1138,88 @@ func FreeVars(t *Term, seen map[*Term]bool, out *[]*Term) {
 }
 
 var _ = bits.Len
+
+// Rebuild reconstructs t with new arguments through the simplifying constructors.
+func (c *Ctx) Rebuild(t *Term, a []*Term) *Term {
+	switch t.Op {
+	case OConst, OVar:
+		return t
+	case ONot:
+		return c.Not(a[0])
+	case OAnd:
+		return c.And(a...)
+	case OOr:
+		return c.Or(a...)
+	case OEq:
+		return c.Eq(a[0], a[1])
+	case OIte:
+		return c.Ite(a[0], a[1], a[2])
+	case OAdd, OSub, OMul, OUDiv, OURem, OSDiv, OSRem, OBAnd, OBOr, OBXor, OShl, OLShr, OAShr:
+		return c.bin(t.Op, a[0], a[1])
+	case OBNot:
+		return c.BNot(a[0])
+	case ONeg:
+		return c.Neg(a[0])
+	case OUlt, OUle, OSlt, OSle:
+		return c.cmp(t.Op, a[0], a[1])
+	case OExtract:
+		return c.Extract(a[0], t.P1, t.P2)
+	case OZext:
+		return c.Zext(a[0], t.S.W)
+	case OSext:
+		return c.Sext(a[0], t.S.W)
+	case OConcat:
+		return c.Concat(a[0], a[1])
+	case OFAdd, OFSub, OFMul, OFDiv:
+		return c.fbin(t.Op, a[0], a[1])
+	case OFNeg:
+		return c.FNeg(a[0])
+	case OFLt, OFLe, OFEq:
+		return c.fcmp(t.Op, a[0], a[1])
+	case OFRoundRNA, OFFloor, OFCeil, OFTrunc, OFIsNaN, OFIsInf:
+		return c.FUn(t.Op, a[0])
+	case OUToF:
+		return c.UToF(a[0])
+	case OSToF:
+		return c.SToF(a[0])
+	case OFToUBV:
+		return c.FToUBV(a[0], t.P1)
+	case OFToSBV:
+		return c.FToSBV(a[0], t.P1)
+	}
+	panic("smt: Rebuild: unknown op")
+}
+
+// Subst replaces variables by the bound terms (memoised in memo).
+func (c *Ctx) Subst(t *Term, bind map[*Term]*Term, memo map[*Term]*Term) *Term {
+	if t.Op == OConst {
+		return t
+	}
+	if r, ok := memo[t]; ok {
+		return r
+	}
+	var r *Term
+	if t.Op == OVar {
+		if b, ok := bind[t]; ok {
+			r = b
+		} else {
+			r = t
+		}
+	} else {
+		changed := false
+		na := make([]*Term, len(t.Args))
+		for i, a := range t.Args {
+			na[i] = c.Subst(a, bind, memo)
+			if na[i] != a {
+				changed = true
+			}
+		}
+		if changed {
+			r = c.Rebuild(t, na)
+		} else {
+			r = t
+		}
+	}
+	memo[t] = r
+	return r
+}
